@@ -6,6 +6,10 @@ import random
 from vf import Infra, write_ndjson, read_ndjson
 from c01 import tlc_table, find_special_keys, N
 
+PP = 0xFFFFFFFEFFFFFFFFFFFFFFFFFFFFFFFFFFFFFFFF00000000FFFFFFFFFFFFFFFF
+PA = PP - 3
+PB = 0x28E9FA9E9D9F5E344D5A9E4BCF6509A7F39789F515AB8F92DDBCBD414D940E93
+
 LEVEL = "exploration"
 
 
@@ -76,7 +80,34 @@ def run(ctx):
     ctx.log("short-key sweep: %d exchanges with key length 1 or 2; %d with an error or disagreement and %d with an all-zero key handed to the specification" % (sw["exchanges"], len(sw["odd"]), len(sw["zero"])))
     ctx.cov["short_key_all_zero_cases"] = len(sw["zero"])
     ctx.cov["short_key_exchanges"] = sw["exchanges"]
-    rows = tlc_table(ctx, cases, "kx")
+    # one party's side with the peer's values given as POINTS that no known scalar produces: an ephemeral point whose x lies in
+    # [n, p) (a legal coordinate that is not a legal scalar), a static key with a zero coordinate (0, sqrt b), ephemeral points
+    # whose x is exactly 16 bytes long with the top bit set / 15 bytes long (the x~ truncation at its boundary)
+    def lift(x):
+        """a curve point with this x (or the next x that has one)"""
+        while True:
+            y2 = (pow(x, 3, PP) + PA * x + PB) % PP
+            y = pow(y2, (PP + 1) // 4, PP)
+            if y * y % PP == y2:
+                return hex(x)[2:], hex(y)[2:]
+            x += 1
+    gx, gy = tlc_table(ctx, [{"kind": "findkey", "d": 7}], "findkey7")[0]["expect"]["x"], tlc_table(ctx, [{"kind": "findkey", "d": 7}], "findkey7")[0]["expect"]["y"]
+    g9 = tlc_table(ctx, [{"kind": "findkey", "d": 9}], "findkey9")[0]["expect"]
+    half = []
+    specials = [("peer ephemeral x in [n, p)", (g9["x"], g9["y"]), lift(N + 4)), ("peer ephemeral x = p - 2 ..", (g9["x"], g9["y"]), lift(PP - 2)),
+                ("peer static key (0, sqrt b)", lift(0), (gx, gy)),
+                ("peer ephemeral x of 16 bytes with the top bit set", (g9["x"], g9["y"]), lift(1 << 127)),
+                ("peer ephemeral x of 16 bytes, top bit clear", (g9["x"], g9["y"]), lift((1 << 126) + 5)),
+                ("peer ephemeral x of 15 bytes", (g9["x"], g9["y"]), lift(1 << 119)), ("peer ephemeral x of 17 bytes", (g9["x"], g9["y"]), lift(1 << 128))]
+    for i, (note, pp, pr) in enumerate(specials):
+        for role in ("a", "b"):
+            half.append({"kind": "kxhalf", "role": role, "d": rk(), "r": rk(), "ppx": pp[0], "ppy": pp[1], "prx": pr[0], "pry": pr[1],
+                         "ida": ids(3), "idb": ids(4), "klen": 16, "note": note})
+    hrows = tlc_table(ctx, half, "kxhalf")
+    for x in hrows:
+        if not x["expect"]["peer_ok"]:
+            raise Infra("constructed peer value is not on the curve: %s" % x["case"]["note"])
+    rows = tlc_table(ctx, cases, "kx") + hrows
     bad = [dict(cases[5], bad="offcurve"), dict(cases[5], bad="infinity"), dict(cases[5], bad="xplusp"), dict(cases[5], bad="yminusp")]
     casef = os.path.join(ctx.work, "kx.ndjson")
     obsf = os.path.join(ctx.work, "kx.obs.ndjson")
@@ -96,6 +127,18 @@ def run(ctx):
             for side in ("a", "b"):
                 if not g[side]["err"]:
                     probs.append("party %s derived a key from a peer ephemeral value that is %s" % (side.upper(), {"offcurve": "not on the curve", "infinity": "the point at infinity", "xplusp": "a pair outside [0, p) (x + p, y)", "yminusp": "a pair outside [0, p) (x, y - p)"}[c["bad"]]))
+        elif c.get("kind") == "kxhalf":
+            e, h = exp[json.dumps(c, sort_keys=True)], g["half"]
+            if e["fail"]:
+                if not h["err"]:
+                    probs.append("a key was derived although the point is the point at infinity")
+            elif h["err"]:
+                probs.append("party %s failed" % c["role"].upper())
+            else:
+                if h["k"] != e["k"]:
+                    probs.append("party %s: shared key differs from GM/T 0003.3" % c["role"].upper())
+                if h["s1"] != e["s1"] or h["s2"] != e["s2"]:
+                    probs.append("party %s: confirmation values differ from GM/T 0003.3" % c["role"].upper())
         else:
             e = exp[json.dumps(c, sort_keys=True)]
             if not e["same"]:
@@ -115,7 +158,7 @@ def run(ctx):
             if not probs and not e["fail"] and (g["a"]["k"] != g["b"]["k"] or g["a"]["s1"] != g["b"]["s1"] or g["a"]["s2"] != g["b"]["s2"]):
                 probs.append("the two parties disagree")
         if probs:
-            ctx.violation("key exchange %s: %s" % (json.dumps({k: v for k, v in c.items() if k in ("ida", "idb", "klen", "note", "bad")}, sort_keys=True), "; ".join(probs)), {"case": c, "observed": g})
+            ctx.violation("key exchange %s: %s" % (json.dumps({k: v for k, v in c.items() if k in ("ida", "idb", "klen", "note", "bad", "role")}, sort_keys=True), "; ".join(probs)), {"case": c, "observed": g})
         else:
             ok += 1
     ctx.log("key-exchange cases conforming: %d / %d (%d with a short shared-point coordinate)" % (ok, len(obs), len(shortv[:4])))
